@@ -41,6 +41,7 @@ type frame struct {
 	pkg     *packages.Package
 	loopOrd int
 	rets    []*Env
+	retDefers []int // per return state: how many deferred calls had been registered when it was reached
 	results []types.Object // named results (or nil)
 	sig     *types.Signature
 	scope   ast.Node // function body for name lookup
@@ -102,6 +103,8 @@ type FuncCtx struct {
 	relock         func(env *Env)
 	specDepth      int
 	cerrs          []string
+	escDone        bool
+	escCaps        []capturedVar
 }
 
 func (f *FuncCtx) note(s string) { f.notes[s] = true }
